@@ -697,7 +697,7 @@ func EvaluateGreaterThanEqual(left, right reflect.Value) (reflect.Value, error) 
 			leftValue := left.Interface().(time.Time)
 			rightValue := right.Interface().(time.Time)
 
-			return reflect.ValueOf(leftValue.After(rightValue) || leftValue == rightValue), nil
+			return reflect.ValueOf(leftValue.After(rightValue) || leftValue.Equal(rightValue)), nil
 		}
 
 		return reflect.ValueOf(nil), fmt.Errorf("can not use data type of %s in GTE comparison", left.Kind().String())
@@ -781,7 +781,7 @@ func EvaluateLesserThanEqual(left, right reflect.Value) (reflect.Value, error) {
 			leftValue := left.Interface().(time.Time)
 			rightValue := right.Interface().(time.Time)
 
-			return reflect.ValueOf(leftValue.Before(rightValue) || leftValue == rightValue), nil
+			return reflect.ValueOf(leftValue.Before(rightValue) || leftValue.Equal(rightValue)), nil
 		}
 
 		return reflect.ValueOf(nil), fmt.Errorf("can not use data type of %s in LTE comparison", left.Kind().String())
@@ -872,7 +872,7 @@ func EvaluateEqual(left, right reflect.Value) (reflect.Value, error) {
 			leftValue := left.Interface().(time.Time)
 			rightValue := right.Interface().(time.Time)
 
-			return reflect.ValueOf(leftValue == rightValue), nil
+			return reflect.ValueOf(leftValue.Equal(rightValue)), nil
 		}
 
 		return reflect.ValueOf(nil), fmt.Errorf("can not use data type of %s in EQ comparison", left.Kind().String())
@@ -963,7 +963,7 @@ func EvaluateNotEqual(left, right reflect.Value) (reflect.Value, error) {
 			leftValue := left.Interface().(time.Time)
 			rightValue := right.Interface().(time.Time)
 
-			return reflect.ValueOf(leftValue != rightValue), nil
+			return reflect.ValueOf(!leftValue.Equal(rightValue)), nil
 		}
 
 		return reflect.ValueOf(nil), fmt.Errorf("can not use data type of %s in EQ comparison", left.Kind().String())
